@@ -362,6 +362,21 @@ class HandleTypestate(Client):
         return self._handle_call(call, ctx)
 
     def refine(self, test, state, ctx: Ctx):
+        # `self.<handle>.tell() == <offset>`: on the true branch the handle stands where a seek(<offset>) would put it
+        if isinstance(test, ast.Compare) and len(test.ops) == 1 and isinstance(test.ops[0], (ast.Eq, ast.NotEq)):
+            for a in (test.left, test.comparators[0]):
+                if isinstance(a, ast.Call) and isinstance(a.func, ast.Attribute) and a.func.attr == "tell" and not a.args:
+                    d = dotted(a.func.value)
+                    if d and len(d) == 1 and not ctx.scope.is_self(a.func.value):
+                        from ..flow import Flow
+                        fl = getattr(ctx.func.node, "_flow", None)
+                        if fl is None:
+                            fl = ctx.func.node._flow = Flow(ctx.func.node)
+                        d = dotted(fl.expand(a.func.value)) or d          # mm = self.mm
+                    if d and len(d) == 2 and d[1] in self.handles and ctx.scope.is_self(ast.Name(id=d[0], ctx=ast.Load())):
+                        owner, cursor = state
+                        pos = ((owner, POS),)
+                        return (pos, (state,)) if isinstance(test.ops[0], ast.Eq) else ((state,), pos)
         # if self._dirty: refined by the per-class constant
         if self.dirty_const is not None and self.dirty_field is not None:
             d = dotted(test)
